@@ -72,11 +72,19 @@ def make_store(N, links, requested=None, ops_list=None):
     for i in range(1, N):
         k = None if requested is None else requested[i]
         nodes.append(h.add_node(ops_list[i] if ops_list else node_op(i), num_outs=k))
+    attach_links(h, links, {i: (0 if (requested is None or requested[i] is None) else requested[i]) for i in range(1, N)})
+    return h, nodes
+
+
+def attach_links(h, links, requested):
+    """Install the (symbolic) links into a freshly built Hugr `h` that has no links yet.
+    `requested`: node index -> output count requested at creation (for the port counters)."""
     if not sym.symbolic():
         for l in links:
             if l.p:
-                h.add_link(nodes[l.a].out(l.o), nodes[l.b].inp(l.q))
-        return h, nodes
+                h.add_link(Node(l.a).out(l.o), Node(l.b).inp(l.q))
+        return
+    assert len(h._links.fwd) == 0
     fwd = SymDict("links.fwd", SubPortCodec(OutPort), SubPortCodec(InPort))
     bck = SymDict("links.bck", SubPortCodec(InPort), SubPortCodec(OutPort))
     zl = [(to_z3_bool(l.p), to_z3_int(l.a), to_z3_int(l.o), to_z3_int(l.b), to_z3_int(l.q)) for l in links]
@@ -90,8 +98,7 @@ def make_store(N, links, requested=None, ops_list=None):
     bm = BiMap.__new__(BiMap)
     bm.fwd, bm.bck = fwd, bck
     h._links = bm
-    for v in range(1, N):
-        req = 0 if (requested is None or requested[v] is None) else requested[v]
+    for v, req in requested.items():
         outs = to_z3_int(req)
         inps = z3.IntVal(0)
         for (p, a, o, b, q) in zl:
@@ -101,7 +108,6 @@ def make_store(N, links, requested=None, ops_list=None):
             inps = z3.If(c > inps, c, inps)
         h._nodes[v]._num_outs = wrap_int(outs)
         h._nodes[v]._num_inps = wrap_int(inps)
-    return h, nodes
 
 
 # ---------------------------------------------------------------------------
